@@ -145,95 +145,57 @@ packet Detail {
 	string RuleName `" ++ [35268; 21017; 21517; 31216]%N ++ runes_of_ascii "`,
 	u16 Code `" ++ [21407; 22240; 20195; 30721]%N ++ runes_of_ascii "`,
 }")).
-Eval vm_compute in ("<<<M1327>>>" ++ check (runes_of_ascii "// top
-options
-    // c0
-{ // c1a
-  // c1b
-LittleEndian
-    // c2
-= true // c4a
-  // c4b
-;
-    // c5
-StringPrefixLenType =
-    // c7
-u16 // c8
-; // c9a
-  // c9b
-FixedStringPadChar // c10
-= // c11
-' '
-    // c12
-;
-    // c13
-} // c14
-packet // c15a
-  // c15b
-Logon { // c17a
-  // c17b
-@leftPad ( '0' ) // c21
-char[ // c22a
-  // c22b
-10 // c23
-] // c24
-tag7 // c25a
-  // c25b
-,
-    // c26
-} // c27a
-  // c27b
-root packet
-    // c29
-Ack // c30a
-  // c30b
-{ int32 // c32
-Px , // c34
-uint16
-    // c35
-count // c36
-,
-    // c37
-string // c38a
-  // c38b
-Qty
-    // c39
-, // c40a
-  // c40b
-string // c41a
-  // c41b
-OrderId // c42
-, string Flags // c45a
-  // c45b
-,
-    // c46
-u8 // c47a
-  // c47b
-x // c48a
-  // c48b
-, // c49a
-  // c49b
-match // c50
-x // c51
-as
-    // c52
-Body
-    // c53
-{ // c54
-[ // c55a
-  // c55b
-58 // c56
-, // c57
-169 // c58a
-  // c58b
-] // c59
-: Logon , // c62a
-  // c62b
-} // c63
-,
-    // c64
+Eval vm_compute in ("<<<M1332>>>" ++ check (runes_of_ascii "options {
+    FixedStringPadFromLeft = true;
+    FixedStringPadChar = '0';
 }
-    // c65
+packet Leg {
+    InPrice0 {
+        repeat string clOrdID,
+        int16 msgKind,
+        zchar[5] Px,
+    },
+    i16 f1,
+    repeat f64 Side2,
+    string Acct,
+}
+packet Cancel {
+    zchar[4] clOrdID,
+    string seqNo,
+    Leg,
+    @leftPad('0') char[11] OrderId,
+}
+packet Quote {
+    repeat char[4] sym,
+    f64 OrderId,
+    repeat Leg,
+    repeat i64 f1,
+    int16 Note,
+    zchar[3] count,
+}
+root packet Ack {
+    @leftPad(' ') char[10] sym,
+    InPx60 {
+        Cancel,
+        repeat char[1] f1,
+        string Tail,
+        repeat InNote55 {
+            int8 count,
+            f64 f1,
+            repeat Cancel,
+        },
+        char[] tag7,
+        repeat string msgKind,
+    },
+    u8 lastPx,
+    match lastPx as Body {
+        152 : Quote,
+        173 : Cancel,
+        4 : Leg,
+    },
+    u16 Ref @calculatedFrom(""CR\
+C32""),
+}
 ")).
 Eval vm_compute in ("<<<M1581>>>" ++ check (runes_of_ascii "options {
     FixedStringPadFromLeft = true;
@@ -546,39 +508,37 @@ float // c42
 , // c44
 } // c45
 ")).
-Eval vm_compute in ("<<<M1637>>>" ++ check (runes_of_ascii "MetaData u128 {
-    zchar[3] matchKey `crlf
-        line`,
+Eval vm_compute in ("<<<M1340>>>" ++ check (runes_of_ascii "options {
+    ArrayPrefixLenType = u64;
+    FixedStringPadFromLeft = true;
+    FixedStringPadChar = '0';
 }
-
-// packet A { u8 x, }
-options {
+packet Quote {
 }
-
-root packet rootA {
-    @calculatedFrom(""{,}"")
-    repeat u16 len,
-    repeat body,
-    i8i8 @lengthOf(packetx),
-    metadata int `line1
-        line2`,
-    uint8x `two words`,
-    int16 x_y_z,
-    repeatCount,
-    Logon {
-        repeat i8 Packet `line1
-                line2`,
+packet Ack {
+    repeat InNote66 {
+        u8 pad0,
     },
 }
-
-options {
-    // " ++ [128512]%N ++ runes_of_ascii " emoji
-    lengthOf = ' ';
-    i64_ = ""{,}"";
-    msg_type = '0';
-    u = i32;
-    _x = ""abc"";
-}")).
+packet Reject {
+}
+root packet Order {
+    Quote,
+    repeat Reject,
+    string venue,
+    string seqNo,
+    uint32 Ref,
+    u16 lastPx,
+    u32 clOrdID @lengthOf(Body),
+    match lastPx as Body {
+        190 : Reject,
+        186 : Quote,
+        22 : Ack,
+    },
+    u16 Flags @calculatedFrom(""CR\
+C32""),
+}
+")).
 Eval vm_compute in ("<<<M1726>>>" ++ check (runes_of_ascii "
 // top
       options  // c0
@@ -678,33 +638,44 @@ root packet options1 {
     @rightPad(' ')
     repeat Pad,
 }")).
-Eval vm_compute in ("<<<M1615>>>" ++ check (runes_of_ascii "  // top
-  packet // c0a
-  // c0b
-  orderItem// c1a
-	// c1b
-		{
-    u8 	 // c3
-    a// c4
-  , 	 // c5a
-	// c5b
-	}
-// c6
-root
-	packet	// c8a
-      // c8b
-    newOrder  // c9a
-	// c9b
-      {
-orderItem// c11
-      , u8
-    // c13
+Eval vm_compute in ("<<<M1462>>>" ++ check (runes_of_ascii "
 
-  x	// c14a
-    	// c14b
-,
-    // c15
-  } 	 // c16")).
+  options {
+
+LittleEndian  = true ;  }
+packet Logon
+{
+u8	x	, } 
+packet 
+Logout
+{ 
+u16	reason	,}  root  packet
+
+Frame {u16
+	Kind
+,u16
+    Kind2 ,
+    match
+Kind 
+as Body {1
+: Logon ,	[2  ,
+	3,4]
+:	Logout ,
+
+100  : Logon	,
+    }  ,
+match Kind2 as
+
+Trailer
+	{
+
+0 :
+	Logout	,
+
+} 
+,}
+
+")).
 Eval vm_compute in ("<<<M1274>>>" ++ check (runes_of_ascii "// top
 options
     // c0
